@@ -101,6 +101,17 @@ def frozen(
     except graphs.Skip:
         return True
     how = SHARD["seal"]
+    if SHARD.get("pre_ops"):
+        # before sealing: an identifier request on a symbolic node, then a
+        # legitimate assignment on a symbolic node (what is frozen afterwards
+        # must be the identifier of the content as it is when sealed)
+        a = g.nodes[pick(n0, len(g.nodes))]
+        b = g.nodes[pick(n1, len(g.nodes))]
+        if not a.__xpm__._sealed and not b.__xpm__._sealed:
+            a.__xpm__.full_identifier
+            name = next((nm for nm, arg in b.__xpmtype__.arguments.items() if arg.type.__class__.__name__ == "IntType" and not arg.constant and not arg.ignored and arg.generator is None), None)
+            if name is not None:
+                b.__xpm__.set(name, 4242)
     if how == "seal":
         g.root.__xpm__.seal(DirectoryContext(Path("/xvctx")))
     elif how == "instance":
@@ -113,6 +124,14 @@ def frozen(
             rt.note("FAIL: node not sealed:", type(n).__name__)
             ok = False
     ids = [(hashing.raw(n.__xpm__.raw_identifier.main), hashing.raw(n.__xpm__.full_identifier.main)) for n in g.nodes]
+    if SHARD.get("pre_ops"):
+        # what was frozen is the identifier of the sealed content (reference model of C01)
+        from xv.harness import c01_identifier as C01
+
+        C01.SHARD = {"data": "symbolic"}
+        if not C01.check_nodes(g, hashing.Rec if not rt.concrete() else __import__("hashlib").sha256):
+            rt.note("FAIL: the frozen identifier is not the identifier of the sealed content")
+            ok = False
     relpath = str(g.root.__xpm__.job.relpath) if (how == "submit" and rt.concrete()) else None
     attempts = [(m0, n0, z0), (m1, n1, z1), (m2, n2, z2)][: SHARD.get("attempts", 2)]
     for ai, (m, nsel, z) in enumerate(attempts):
@@ -150,6 +169,10 @@ graphs.SKELETONS["gentask"] = (sk_gentask, 0)
 def conditions(tier):
     conds = []
     tmo = 300 if tier == "quick" else 1200
+    for sk in ("flat", "nested", "shared", "list", "cyc2"):
+        nstr = graphs.SKELETONS[sk][1]
+        for how in ("seal", "instance"):
+            conds.append({"name": f"frozen-after-edit/{sk}/{how}", "func": "frozen", "shard": {"sk": sk, "seal": how, "m0": 0, "lens": [1] * nstr, "attempts": 1, "fixed_sels": [1] * 8, "pre_ops": 1}, "timeout": tmo})
     tasks_roots = ("taskself", "taskout", "tasklist", "gentask")
     for sk, (_, nstr) in sorted(graphs.SKELETONS.items()):
         hows = ["seal", "instance"]
